@@ -33,7 +33,19 @@ CLAIMED.update({
          "Assumed: the match-all iteration's term list (reference). An empty non-nil end bound is not a well-formed range and is not generated.", "6 C08"),
 })
 
-PENDING = {k: 'claimed in DESIGN.md; its check is still under construction in this session and is not registered yet' for k in ['C10','C11','C16','C17','C18','C19','C20']}
+CLAIMED.update({
+ "C10": ("exploration", "deterministic simulation: seeded builder tasks over the pooled builder, interleaved at document/field accessor callbacks and pool hooks, with rejected batches, failing engine calls and pool flushes; relative oracle: same batch in a pristine builder; race detector under an invisible baton",
+         "Seeded histories (large-then-small, many-fields-then-few, synonym/vector then plain, empty, rejected, engine failure) x 1-4 interleaved builder tasks x pool flushes; every successful build equals the pristine build of its batch on the complete read surface (plus size and bytes-written for plain content); a rejected batch returns an error; pool ownership monitored; the same seeds run in the -race binary (default tags). Sampling, not proof.",
+         "Assumed: the pristine build relative to the batch (C01). Bytes are not compared: zapx writes the per-field section table in Go map iteration order. Under -race sync.Pool drops Puts at random, so pool contents there are not replayable.", "6 C10"),
+ "C11": ("exploration", "deterministic simulation: seeded reader tasks over shared segments under a baton scheduler (yields in visitor callbacks, write callbacks of a concurrent merge and zapx check-then-act windows); oracles: solo answer on a twin instance, visitor bytes stable across a yield, pool ownership monitor, Go race detector under an invisible (raw-syscall) baton",
+         "Seeded interleavings of 2-6 reader tasks (term queries, dictionary iterations, stored-field visits that continue / stop at _id / stop later / nest, DocID, DocNumbers, doc-value visits, thesaurus lookups, merges reading the shared segments) after a solo history prefix that shapes the scratch pools; every call equals its solo result, visitor bytes are unchanged after a yield inside the callback, no scratch object is owned twice, zero race reports. Sampling, not proof.",
+         "Trusted: the harness's own tasks are race-free by construction (pre-drawn ops, private logs; validated by a clean -race batch on the repaired tree). Assumed: solo answers. Under -race a race finding replays probabilistically (sync.Pool randomness).", "6 C11"),
+ "C20": ("exploration", "deterministic simulation: seeded balanced AddRef/DecRef/Close histories, sequential with read sweeps and by interleaved holder tasks; oracles: reference-counter model vs hook-read counter, reads succeed (faults trapped), /proc/self/maps and /proc/self/fd, release return values; race variant",
+         "Seeded sequential histories (read sweep, mapping and descriptor check between any two reference operations) and 2-5 interleaved holder tasks with yields before the reference lock; after the last release the file is unmapped and closed, every release returned nil, the counter equals the model throughout. Sampling, not exhaustive enumeration of sequences.",
+         "Trusted: /proc/self/maps and /proc/self/fd as observers. Every task owns a reference before it starts, so the count stays positive until the end as the statement requires.", "6 C20"),
+})
+
+PENDING = {k: 'claimed in DESIGN.md; its check is still under construction in this session and is not registered yet' for k in ['C16','C17','C18','C19']}
 
 NOT_APPLICABLE = {
  "C01": "pure function of (batch, chunk mode, build tag): no schedule, fault, timer, I/O error or call history in the statement; deciding it needs an independent model of the index, i.e. input generation rather than simulation (DESIGN 2, 6)",
